@@ -88,7 +88,8 @@ class Module:
         for st in ast.walk(self.tree):
             if isinstance(st, ast.Import):
                 for a in st.names:
-                    out[a.asname or a.name.split('.')[0]] = a.name
+                    # `import a.b.c` binds `a` to the package a; `import a.b.c as x` binds x to a.b.c
+                    out[a.asname or a.name.split('.')[0]] = a.name if a.asname else a.name.split('.')[0]
             elif isinstance(st, ast.ImportFrom):
                 base = ('.' * st.level) + (st.module or '')
                 for a in st.names:
